@@ -5,7 +5,6 @@
    lu cases :  lu <solve|invert|det> <n> <S> <piv> <hex doubles: A[r][c][l] ... then b[r][l] ...>
                (also mv, norms; dlu = DynamicMatrix)
                ->  <model of the S-lane call> | <spec: scalar call per lane, separated by " ; ">
-                   [ | <same two fields for the determinant as the code stands (select before the product)> ]
                    | <trace: per step pivot rows per lane and nonsingular mask>
    The LU model is extracted from Coq with the carrier operations as parameters; here they are IEEE doubles. *)
 open C09_model
@@ -82,9 +81,9 @@ let () =
                  let sp = c09_spec_invert fsub fmul fdiv fabs fgt fnz 0.0 1.0 (-1.0) w piv nn a in
                  res_mat r ^ " | " ^ String.concat " ; " (List.map res_mat1 sp) ^ " | " ^ trace ()
              | "det" ->
-                 let d fixed = vec (c09_v_det fsub fmul fdiv fabs fgt fnz 0.0 1.0 (-1.0) w fixed piv nn a) in
-                 let sp fixed = String.concat " ; " (List.map hex (c09_spec_det fsub fmul fdiv fabs fgt fnz 0.0 1.0 (-1.0) w fixed piv nn a)) in
-                 d true ^ " | " ^ sp true ^ " | " ^ d false ^ " | " ^ sp false ^ " | " ^ trace ()
+                 let d = vec (c09_v_det fsub fmul fdiv fabs fgt fnz 0.0 1.0 (-1.0) w piv nn a) in
+                 let sp = String.concat " ; " (List.map hex (c09_spec_det fsub fmul fdiv fabs fgt fnz 0.0 1.0 (-1.0) w piv nn a)) in
+                 d ^ " | " ^ sp ^ " | " ^ trace ()
              | "mv" ->
                  let x = List.init n (fun _ -> List.init s (fun _ -> next ())) in
                  let fadd (a : float) (b : float) = a +. b in
@@ -92,11 +91,11 @@ let () =
                  let lanes = List.init s (fun l -> vec (c09_s_mv fadd fmul 0.0 (c09_lane_mat 0.0 (nat_of_int l) a) (c09_lane_vec 0.0 (nat_of_int l) x))) in
                  String.concat " " (List.map vec r) ^ " | " ^ String.concat " ; " lanes
              | "norms" ->
-                 (* only infinity_norm is modelled: HasNaN variant for the S-lane type (fixes/C09-2.patch) | scalar per lane | !HasNaN variant (code as it stood) *)
+                 (* only infinity_norm is modelled (HasNaN<double> = true, forwarded to the S-lane type): S-lane result | scalar per lane *)
                  let fadd (a : float) (b : float) = a +. b and flt (a : float) (b : float) = a < b in
-                 let v h = vec (c09_v_infnorm 0.0 fabs fadd fmul fdiv flt 0.0 1.0 w h a) in
+                 let v = vec (c09_v_infnorm 0.0 fabs fadd fmul fdiv flt 0.0 1.0 w true a) in
                  let lanes = List.init s (fun l -> hex (c09_s_infnorm fabs fadd fmul fdiv flt 0.0 1.0 true (c09_lane_mat 0.0 (nat_of_int l) a))) in
-                 v true ^ " | " ^ String.concat " ; " lanes ^ " | " ^ v false
+                 v ^ " | " ^ String.concat " ; " lanes
              | _ -> "-")
         | _ -> "UNKNOWN-CASE"
       with e -> "MODEL-ERROR " ^ Printexc.to_string e in
